@@ -37,6 +37,7 @@ structure Case where
   appSigOK : Bool
   clientSigOK : Bool
   label : String
+  canonIn : String
 
 def mkCase (m : List (String × String)) : Case :=
   let g := look m
@@ -80,7 +81,7 @@ def mkCase (m : List (String × String)) : Case :=
     sessionGen := session,
     sessionEndCtxOk := g "label" ≠ "session-end-ctx-missing" }
   { E, r, sbhArg, app, appStakedNow := boolOf (g "appStakedNow"), appStaked := g "appStatus" = "2" && !boolOf (g "appJailed"),
-    appSigOK, clientSigOK, label := g "label" }
+    appSigOK, clientSigOK, label := g "label", canonIn := g "canonIn" }
 
 def resStr : Res → String
   | .ok m => s!"OK {m}"
@@ -98,7 +99,11 @@ def specServed (c : Case) (handle : Bool) : Option Verdict :=
   else match c.app with
   | none => fail "served-for-unknown-application"
   | some app =>
-    if !c.clientSigOK then fail "served-with-bad-client-signature"
+    -- the session (node selection, cache key, evidence key) is a function of the header's key
+    -- TEXT: only the canonical spelling of the staked application's key names its session
+    if p.token.appPub ≠ app.pubRaw then
+      some (Verdict.propfail "served-noncanonical-app-key" s!"label={c.label} servicerInCanonicalSession={c.canonIn}")
+    else if !c.clientSigOK then fail "served-with-bad-client-signature"
     else if p.requestHash ≠ E.requestHashOf c.r then fail "served-with-wrong-request-hash"
     else if E.addrOf p.servicer ≠ some E.nodeAddr then fail "served-for-other-servicer-key"
     else if !(match E.session with | .ok ns => ns.contains (some E.nodeAddr) | _ => false) then fail "served-by-non-session-servicer"
